@@ -590,6 +590,8 @@ def run(chk, repo, tier):
     check_none_defaults(chk, repo)
     exception_arity(chk, repo, 'R09.4', [PARSER, READER, MQR, RQR])
     check_addbond(chk, repo)
+    from . import c08
+    c08.query_atoms(chk, repo, 'R09.4')
     check_scanner_loops(chk, repo)
     check_refs(chk, repo)
     check_implicit_raisers(chk, repo)
